@@ -375,6 +375,11 @@ func JumboBatch(r *rand.Rand, n int, prefix string, tagDV ...bool) ([]*model.MDo
 		if (i < sa || i >= sb) && r.Intn(4) > 0 {
 			d.Fields = append(d.Fields, &model.MField{N: "sparse", DV: true, Terms: []*model.MTerm{{T: []byte(fmt.Sprintf("s%d", i%7)), F: 1}}})
 		}
+		if r.Intn(4) > 0 { // "rnd": a large dictionary of poorly compressible terms (the field's FST exceeds several KiB)
+			t := make([]byte, 5)
+			r.Read(t)
+			d.Fields = append(d.Fields, &model.MField{N: "rnd", Terms: []*model.MTerm{{T: t, F: 1}}})
+		}
 		if i < sa/3 && r.Intn(3) > 0 { // "head": doc values only at the very beginning (every later 1024-document chunk, incl. the last, is empty)
 			d.Fields = append(d.Fields, &model.MField{N: "head", DV: true, Terms: []*model.MTerm{{T: []byte(fmt.Sprintf("h%d", i%5)), F: 1}}})
 		}
